@@ -513,6 +513,18 @@ TEMPLATES = [
 ]
 
 
+# values of the annotation keyword `$schema`: official meta-schema URIs of every draft (older and newer than the
+# supported one), the undated aliases, and strings that only look like them - a document may name any of them
+SCHEMA_URIS = [
+    "http://json-schema.org/draft-06/schema#", "http://json-schema.org/draft-06/schema",
+    "http://json-schema.org/draft-07/schema#", "http://json-schema.org/draft-04/schema#",
+    "http://json-schema.org/draft-03/schema#", "https://json-schema.org/draft/2019-09/schema",
+    "https://json-schema.org/draft/2020-12/schema", "http://json-schema.org/schema#",
+    "http://json-schema.org/hyper-schema#", "http://json-schema.org/draft-06/hyper-schema#",
+    "http://json-schema.org/draft-xx/schema#", "http://example.com/my-meta-schema#", "urn:example:meta",
+]
+
+
 VACUOUS = [
     ("required", []), ("properties", {}), ("patternProperties", {}), ("dependencies", {}), ("items", {}),
     ("items", True), ("additionalProperties", True), ("additionalProperties", {}), ("additionalItems", True),
